@@ -48,6 +48,61 @@ theorem setCurrent_eq (s : SSt) (i : Nat) (ph : StartPhase) (r : Run) :
   | none => rfl
   | some n => by_cases hp : ph = .preparing <;> simp [hp]
 
+/-! ### the keys a generated product is stored under (`SSt.genKeys`) -/
+
+/-- The first pair with key `k` is a member of the list. -/
+theorem alookup_mem_pair {κ α : Type} [DecidableEq κ] {k : κ} {v : α} {l : List (κ × α)}
+    (h : alookup k l = some v) : (k, v) ∈ l := by
+  induction l with
+  | nil => simp at h
+  | cons p l ih =>
+    obtain ⟨k', v'⟩ := p
+    rw [alookup_cons] at h
+    by_cases hk : k' = k
+    · rw [if_pos hk] at h
+      cases h; subst hk; exact List.mem_cons_self
+    · rw [if_neg hk] at h
+      exact List.mem_cons_of_mem _ (ih h)
+
+/-- Looking a key up in a list of keys that all carry the same value. -/
+theorem alookup_map_const {κ α : Type} [DecidableEq κ] (k : κ) (v : α) (ks : List κ) :
+    alookup k (ks.map (fun k' => (k', v))) = if k ∈ ks then some v else none := by
+  induction ks with
+  | nil => simp
+  | cons a ks ih =>
+    rw [List.map_cons, alookup_cons, ih]
+    by_cases h : a = k
+    · simp [h]
+    · have h' : ¬ k = a := fun e => h e.symm
+      simp [h, h']
+
+/-- The keys of `genKeys fid`: registered for `fid` and not taken in `res`. -/
+theorem mem_genKeys {s : SSt} {fid : Nat} {k : Key} :
+    k ∈ s.genKeys fid ↔ (k, fid) ∈ s.fac ∧ alookup k s.res = none := by
+  unfold SSt.genKeys acontains
+  simp only [List.mem_filter, List.mem_map, beq_iff_eq, Prod.exists, exists_and_right,
+    exists_eq_right, Bool.not_eq_true', Option.isSome_eq_false_iff, Option.isNone_iff_eq_none]
+
+/-- The requested key is among the keys the product is stored under. -/
+theorem self_mem_genKeys {s : SSt} {fid : Nat} {k : Key} (hres : alookup k s.res = none)
+    (hfac : alookup k s.fac = some fid) : k ∈ s.genKeys fid :=
+  mem_genKeys.mpr ⟨alookup_mem_pair hfac, hres⟩
+
+/-- `res` after a generation by factory `fid`, looked up at any key. -/
+theorem alookup_gen_res (s : SSt) (fid : Nat) (k' : Key) :
+    alookup k' (s.res ++ (s.genKeys fid).map (fun k'' => (k'', Val.gen 0 fid 0))) =
+      match alookup k' s.res with
+      | some w => some w
+      | none => if (k', fid) ∈ s.fac then some (.gen 0 fid 0) else none := by
+  rw [alookup_append, alookup_map_const]
+  cases hr : alookup k' s.res with
+  | some w => simp
+  | none =>
+    simp only [Option.orElse_none]
+    by_cases hm : (k', fid) ∈ s.fac
+    · rw [if_pos (mem_genKeys.mpr ⟨hm, hr⟩), if_pos hm]
+    · rw [if_neg (fun h => hm (mem_genKeys.mp h).1), if_neg hm]
+
 /-- `SSt.lookup` only ever appends to `res`, and the value it returns is then stored. -/
 theorem lookup_some {s s1 : SSt} {k : Key} {v : Val} (h : s.lookup k = some (v, s1)) :
     (∃ ext, s1 = { s with res := s.res ++ ext }) ∧ alookup k s1.res = some v := by
@@ -63,7 +118,9 @@ theorem lookup_some {s s1 : SSt} {k : Key} {v : Val} (h : s.lookup k = some (v, 
       simp only [Option.some.injEq, Prod.mk.injEq] at h
       obtain ⟨rfl, rfl⟩ := h
       refine ⟨⟨_, rfl⟩, ?_⟩
-      simp [alookup_append, hv, alookup_cons]
+      show alookup k (s.res ++ _) = _
+      rw [alookup_gen_res, hv]
+      simp only [if_pos (alookup_mem_pair hf)]
     · cases h
 
 theorem lookup_some_eq {s s1 : SSt} {k : Key} {v : Val} (h : s.lookup k = some (v, s1)) :
